@@ -210,6 +210,8 @@ func (st *msState) resolve(sym string, prev *msReqLog) string {
 		return plPath
 	case sym == "PLQ":
 		return plPath + "?token=a%20b&x=1"
+	case sym == "PL0": // playlist of the first stream (an audio rendition when the audio track is listed before the video track)
+		return mediaPlaylistPath(st.mi.m.streams[0].id)
 	case sym == "PLA": // playlist of the last (audio rendition) stream
 		return mediaPlaylistPath(st.mi.m.streams[len(st.mi.m.streams)-1].id)
 	case sym == "DELTA":
